@@ -75,3 +75,21 @@ Fixpoint files_aligned (off : Z) (files : list bytes) : bool :=
   | [] => true
   | f :: r => file_aligned off f && files_aligned (off + align8 (zlen f)) r
   end.
+
+(* ---------- BIOS regions ---------- *)
+
+(* a region: (padding, volume) pairs followed by trailing padding; any padding may be empty *)
+Fixpoint region_bytes (l : list (bytes * bytes)) (trail : bytes) : bytes :=
+  match l with
+  | [] => trail
+  | (p, v) :: r => p ++ v ++ region_bytes r trail
+  end.
+
+(* the signature scan of a BIOS region looks at 4-byte windows at offsets 32, 40, 48, ...;
+   [scan_clear k b o]: none of the k windows of b starting at o holds "_FVH" *)
+Definition FVH : bytes := [95; 70; 86; 72].
+Fixpoint scan_clear (k : nat) (b : bytes) (o : Z) : bool :=
+  match k with
+  | O => true
+  | S k' => negb (bytes_eqb (sub o 4 b) FVH) && scan_clear k' b (o + 8)
+  end.
